@@ -286,3 +286,58 @@ def crash_exploration(runs, seed):
         shutil.rmtree(work, ignore_errors=True)
     return {"evaluations": runs, "distinct_nontrivial": outcomes["ok"] + outcomes["error"], "samples": samples, "outcomes": outcomes,
             "known_crash_classes_seen": known_seen}, failures, known_seen
+
+
+# ------------------------------------------------------------------ C18: determinism across fresh processes
+
+def determinism_exploration(runs, seed):
+    """Same command, two fresh processes (different hash seeds): stdout and saved problems must be byte-identical."""
+    rng = random.Random(seed)
+    texts = seed_texts()
+    ex = Path("/repo/res/examples")
+    ext_dirs = sorted({f.parent for f in ex.rglob("*.ug")})
+    strong_dirs = sorted({f.parent for f in (ex / "strong_equivalence").rglob("*.lp")})
+    work = Path(tempfile.mkdtemp(prefix="c18_", dir=str(VERIF / "work")))
+    failures, samples, ok = [], [], 0
+    try:
+        for k in range(runs):
+            kind = rng.randrange(4)
+            outs = []
+            if kind == 0:
+                f = work / "in.lp"; f.write_text(rng.choice(texts["lp"]))
+                cmd = ["translate", "--with", rng.choice(["tau-star", "mu", "natural"]), str(f)]
+            elif kind == 1:
+                f = work / "in.spec"; f.write_text(rng.choice(texts["spec"]))
+                cmd = rng.choice([["simplify", "--portfolio", rng.choice(["classic", "ht", "intuitionistic"]), "--strategy", rng.choice(["shallow", "recursive", "fixpoint"])],
+                                  ["translate", "--with", "gamma"], ["parse", "--as", "theory", "--output", "default"]]) + [str(f)]
+            elif kind == 2 and ext_dirs:
+                cmd = ["verify", "--equivalence", "external", "--no-proof-search", "--no-timing", "--save-problems", "OUT", str(rng.choice(ext_dirs))]
+                if rng.random() < 0.5:
+                    cmd[1:1] = []
+                    cmd += []
+            else:
+                d = rng.choice(strong_dirs) if strong_dirs else None
+                if d is None:
+                    continue
+                lps = sorted(d.glob("*.lp"))[:2]
+                if len(lps) < 2:
+                    continue
+                cmd = ["verify", "--equivalence", "strong", "--no-proof-search", "--no-timing", "--save-problems", "OUT",
+                       "--decomposition", rng.choice(["independent", "sequential"])] + [str(x) for x in lps]
+            for rep in range(2):
+                out = work / f"out{rep}"
+                shutil.rmtree(out, ignore_errors=True)
+                out.mkdir()
+                c = [str(out) if x == "OUT" else x for x in cmd]
+                p = subprocess.run([str(ANTHEM)] + c, stdout=subprocess.PIPE, stderr=subprocess.PIPE, timeout=120, env=dict(os.environ, RUST_BACKTRACE="0"))
+                files = {f.name: f.read_bytes() for f in sorted(out.glob("*"))}
+                outs.append((p.returncode, p.stdout, files))
+            if outs[0] != outs[1]:
+                failures.append({"command": cmd, "what": "two fresh processes produced different output / problem files"})
+            else:
+                ok += 1
+                if len(samples) < 2:
+                    samples.append(f"{' '.join(cmd[:5])}: two fresh processes byte-identical ({len(outs[0][2])} files, {len(outs[0][1])} bytes stdout)")
+    finally:
+        shutil.rmtree(work, ignore_errors=True)
+    return {"evaluations": runs, "distinct_nontrivial": ok, "samples": samples, "process_pairs_identical": ok}, failures
